@@ -12,7 +12,7 @@ is wrapped only to *record* accepted connections.
 import contextlib, logging, struct
 logging.disable(logging.CRITICAL)
 import anyio
-from sim import Sim
+from sim import Sim, ticks
 from nintendo.nex import backend, rmc, common, authentication, kerberos, settings as nexsettings, prudp, streams
 
 AUTH_HOST, AUTH_PORT = "10.0.0.1", 60000
@@ -362,7 +362,17 @@ def run_session(sess):
     """one Settings object, `nclients` BackEndClients on one authentication server, the steps of `sess` logged in through
     them: mode 'seq' = one after the other (each secure connection closed before the next login), 'hold' = one after the
     other while the earlier secure connections stay open, 'conc' = all logins in flight at the same time (user names and
-    pids are distinct then).  Returns {"steps": [observation per step, same fields as run_case], "stray": {...}, "error"}."""
+    pids are distinct then).  Returns {"steps": [observation per step, same fields as run_case], "stray": {...}, "error"}.
+
+    Time passing (modes 'seq' / 'hold'): a step may carry `at` = the virtual instant (seconds since the start of the session)
+    at which its login begins (the simulation sleeps until then: minutes or days cost nothing), `group` = the name of a ticket
+    group: the authentication server issues the tickets of a group ONCE (stamped `stamp` seconds after the start of the
+    session — negative = before it —, default: the instant of the first login of the group) and hands the byte-identical
+    tickets out to every later login of the group, and `reconnect` ('seq' only) = the BackEndClients of the session are closed
+    before the pause and new ones are connected after it.  The secure servers live as long as the session.  Every step reports `timing` = {t0, t1:
+    the virtual instants at which the login call began and returned / raised, stamp: the epoch second inside its ticket
+    relative to the session's epoch}, and out["presentations"] lists every call of a keyed server's process_login_request:
+    which server object, the CONNECT payload, the instant (ticks of 2^-30 s), the step, and what it returned or raised."""
     n = len(sess["steps"])
     mode = sess.get("mode", "seq")
     out = {"steps": [new_obs() for _ in range(n)], "stray": new_obs(), "error": None}
@@ -380,11 +390,19 @@ def run_session(sess):
         recs = [None] * n
         current = [None]                             # the step whose login is running (seq / hold)
 
+        groups = {}                                  # ticket group -> (first, second, stamp): issued once, handed out again as they are
         def issue(k):
-            """the authentication server's account data and freshly issued tickets for step k"""
+            """the authentication server's account data and tickets for step k: freshly issued, or the ones its group already has"""
             c = cases[k]
-            first, second = build_tickets(c, s, sim.rng, sim.clock.time())
+            g = c.get("group")
+            if g is not None and g in groups:
+                first, second, stamp = groups[g]
+            else:
+                stamp = sim.clock.time() if c.get("stamp") is None else sim.epoch + c["stamp"]
+                first, second = build_tickets(c, s, sim.rng, stamp)
+                if g is not None: groups[g] = (first, second, stamp)
             out["steps"][k]["tickets"] = (first.hex(), second.hex())
+            out["steps"][k]["timing"] = {"stamp": int(stamp // 1) - int(sim.epoch)}
             placeholder = c["placeholder"]
             sid = c.get("sid", 2 if placeholder else 1)
             adv_host, adv_port = ("0.0.0.1", 1) if placeholder else (SECURE_HOST, SECURE_PORT)
@@ -441,6 +459,22 @@ def run_session(sess):
             (out["steps"][k] if k is not None else out["stray"])["keys"].append(bytes(key).hex())
             return orig_decrypt(cls, data, key, settings)
 
+        out["presentations"] = []
+        orig_plr = prudp.PRUDPServerStream.process_login_request
+        def plr_rec(self, data, client, login=True):
+            if self.key is None: return orig_plr(self, data, client, login)
+            rec = {"server": "%s:%s/%s" % (tuple(self.addr) + (self.port,)) if isinstance(self.addr, (tuple, list)) else "%s/%s" % (self.addr, self.port),
+                   "data": bytes(data).hex(), "now": ticks(sim.now()), "login": bool(login), "step": current[0] if mode != "conc" else None}
+            out["presentations"].append(rec)
+            try:
+                r = orig_plr(self, data, client, login)
+            except Exception as e:
+                name = exc_name(e)
+                rec["result"] = "err " + (name[4:] if name.startswith("exc ") else name)
+                raise
+            rec["result"] = ("accept %d %d %s" % (client.user_pid, client.user_cid, bytes(r).hex())) if login else ("again " + bytes(r).hex())
+            return r
+
         def login_cm(be, c):
             if c.get("guest"): return be.login_guest()
             kwargs = {}
@@ -451,20 +485,35 @@ def run_session(sess):
                 kwargs["auth_info"] = info
             return be.login(c["username"], **kwargs)
 
+        client_stacks, clients = [], []
+        async def reconnect(i):
+            """connect a new BackEndClient in the place of the closed client i"""
+            clients[i] = await client_stacks[i].enter_async_context(backend.connect(s, AUTH_HOST, AUTH_PORT))
+
         async def one_step(k, clients, stack=None, gate=None):
             """log step k in; `stack` given = leave the secure connection open on it"""
             c, o = cases[k], out["steps"][k]
+            recon = c.get("reconnect") and mode == "seq"
+            if recon:
+                for cs in reversed(client_stacks): await cs.aclose()      # the BackEndClients go away before the pause (last opened first) ...
+            if c.get("at") is not None and c["at"] > sim.now():
+                await anyio.sleep(c["at"] - sim.now())            # virtual time: the servers (and the open connections) live on
+            if recon:
+                for i in range(len(clients)): await reconnect(i)          # ... and new ones are connected after it
             _STEP.set(k)
             be = clients[c.get("client", 0) % len(clients)]
             try:
                 if mode != "conc": current[0] = k
                 issue(k)
+                o["timing"]["t0"] = sim.now()
                 if stack is not None:
                     sc = await stack.enter_async_context(login_cm(be, c))
+                    o["timing"]["t1"] = sim.now()
                     o["client_pid"] = sc.pid()
                     o["probe"] = struct.unpack("<Q", await sc.request(PROBE_PROTOCOL, 1, struct.pack("<I", k)))[0]
                 else:
                     async with login_cm(be, c) as sc:
+                        o["timing"]["t1"] = sim.now()
                         o["client_pid"] = sc.pid()
                         o["probe"] = struct.unpack("<Q", await sc.request(PROBE_PROTOCOL, 1, struct.pack("<I", k)))[0]
                         if gate is not None:
@@ -472,6 +521,7 @@ def run_session(sess):
             except Exception as e:            # a failed login must leave the client usable: go on with the next step
                 o["error"] = exc_name(e)
                 o["error_text"] = exc_text(e)
+                if "timing" in o: o["timing"].setdefault("t1", sim.now())
             finally:
                 _STEP.set(None)
 
@@ -481,7 +531,11 @@ def run_session(sess):
                 await stack.enter_async_context(rmc.serve_on_transport(s, [auth], transport, 1))
                 await stack.enter_async_context(rmc.serve_on_transport(s, [probe], transport, 2, key=SECURE_KEY))
                 await stack.enter_async_context(rmc.serve(s, [probe], SECURE_HOST, SECURE_PORT, vport=1, key=SECURE_KEY))
-                clients = [await stack.enter_async_context(backend.connect(s, AUTH_HOST, AUTH_PORT)) for _ in range(sess.get("nclients", 1))]
+                for _ in range(sess.get("nclients", 1)):
+                    cs = contextlib.AsyncExitStack()
+                    await stack.enter_async_context(cs)
+                    client_stacks.append(cs)
+                    clients.append(await cs.enter_async_context(backend.connect(s, AUTH_HOST, AUTH_PORT)))
                 if mode == "seq":
                     for k in range(n): await one_step(k, clients)
                 elif mode == "hold":
@@ -505,6 +559,7 @@ def run_session(sess):
 
         backend.rmc.connect = connect_rec
         kerberos.ClientTicket.decrypt = classmethod(decrypt_rec)
+        prudp.PRUDPServerStream.process_login_request = plr_rec
         try:
             sim.run(main())
         except BaseException as e:
@@ -513,6 +568,7 @@ def run_session(sess):
         finally:
             backend.rmc.connect = orig_connect
             kerberos.ClientTicket.decrypt = classmethod(orig_decrypt)
+            prudp.PRUDPServerStream.process_login_request = orig_plr
             for cls, orig in saved: cls.serve = orig
         out["vtime"] = sim.now()
         if sess.get("draws"): out["draws_made"] = draws_made(sim)
